@@ -22,6 +22,7 @@ EXTENDS Integers, FiniteSets, Sequences, TLC
 CONSTANTS KDoms,      \* family of preimage sets that receive adversarial keys
           KMax,       \* adversarial keys are 0..KMax
           MaxSteps,   \* bound on the number of mutating actions
+          WithObs,    \* BOOLEAN: maintain the derived variable obs (simulation / replay configs)
           Kinds       \* subset of {"pos","fail","cut","ask"}: which stores/actions are exercised
 
 (* ------------------------------ universe -------------------------------- *)
@@ -94,17 +95,20 @@ VARIABLES kdom, kfun,   \* the adversarial part of the hash, fixed at Init
           cuts,         \* RFC 8020 cuts:  set of [name, class]    (nxDomainCutCache.entries)
           chash,        \* wire index:     key -> [name, class]    (nxDomainCutCache.byHash)
           steps,
+          phase,        \* "m": next step mutates; "o": next step only recomputes obs (WithObs)
           last,         \* ghost: the action just taken
           obs           \* derived: every hit of every route
 
-vars == <<kdom, kfun, ids, fids, relq, pos, fail, cuts, chash, steps, last, obs>>
+vars == <<kdom, kfun, ids, fids, relq, pos, fail, cuts, chash, steps, phase, last, obs>>
 
-IxOf(seq, v) == CHOOSE i \in 1..Len(seq) : seq[i] = v
-Code(p) == IxOf(<<"n", "e", "s">>, p.name)
-           + 4 * (IxOf(<<"T0", "T1", "T2">>, p.type)
-           + 4 * (IxOf(<<"C1", "C2">>, p.class)
-           + 3 * ((IF p.cd THEN 1 ELSE 0)
-           + 2 * IxOf(<<"sh", "a4", "a4n", "b4", "a6", "h4", "h4b", "h4o", "h6">>, p.scope))))
+NameIx  == [x \in FNames |-> CASE x = "n" -> 1 [] x = "e" -> 2 [] OTHER -> 3]
+TypeIx  == [x \in Types \cup {"T0"} |-> CASE x = "T0" -> 1 [] x = "T1" -> 2 [] OTHER -> 3]
+ClassIx == [x \in Classes |-> IF x = "C1" THEN 1 ELSE 2]
+ScopeIx == [x \in NScopes |-> CASE x = "sh" -> 1 [] x = "a4" -> 2 [] x = "a4n" -> 3 [] x = "b4" -> 4
+                               [] x = "a6" -> 5 [] x = "h4" -> 6 [] x = "h4b" -> 7 [] x = "h4o" -> 8 [] OTHER -> 9]
+(* an injective code: the private key of a preimage outside kdom *)
+Code(p) == NameIx[p.name] + 4 * (TypeIx[p.type] + 4 * (ClassIx[p.class]
+           + 3 * ((IF p.cd THEN 1 ELSE 0) + 2 * ScopeIx[p.scope])))
 KeyOf(p) == IF p \in kdom THEN kfun[p] ELSE 100 + Code(p)
 
 Has(f, k)    == k \in DOMAIN f
@@ -240,7 +244,7 @@ ResetFail(f, nm, ty, cl, cd, ns) ==
   LET k == KeyOf(Pre(nm, ty, cl, cd, ns))
   IN IF Has(f, k) /\ f[k] = FEntry(nm, ty, cl, cd, ns) THEN Del(f, k) ELSE f
 
-Tick == steps < MaxSteps /\ steps' = steps + 1
+Tick == steps < MaxSteps /\ steps' = steps + 1 /\ phase = "m"
 Same == UNCHANGED <<kdom, kfun, ids, fids, relq>>
 
 (* Store.SetFromResponseWithKey / ...Scoped with the key the writer itself computes *)
@@ -339,7 +343,7 @@ Init ==
   /\ relq = RelQueries(kdom)
   /\ ids = IdsOfDom(kdom) /\ fids = FailIdsOfDom(kdom)
   /\ pos = Empty /\ fail = Empty /\ cuts = {} /\ chash = Empty
-  /\ steps = 0
+  /\ steps = 0 /\ phase = "m"
   /\ last = [op |-> "init"]
   /\ obs = {}
 
@@ -354,7 +358,12 @@ Mutate ==
   \/ \E b \in kdom, c \in cuts : ForgeCut(b, c)
   \/ \E q \in PurgeQs : Purge(q)
 
-Next == Mutate /\ obs' = ObsNow'
+(* replay configs alternate a mutating step with a step that only recomputes obs, so  *)
+(* that simulation does not pay for obs on every candidate successor                  *)
+Observe == /\ phase = "o" /\ phase' = "m" /\ obs' = ObsNow
+           /\ UNCHANGED <<kdom, kfun, ids, fids, relq, pos, fail, cuts, chash, steps, last>>
+Next == \/ Mutate /\ phase' = (IF WithObs THEN "o" ELSE "m") /\ obs' = obs
+        \/ WithObs /\ Observe
 
 Spec == Init /\ [][Next]_vars
 
@@ -376,8 +385,12 @@ ExactAudience ==
     /\ x.client = "none" =>
          /\ Match(PosWire(x), x) /\ Match(CutWire(x), x) /\ Match(FailWire(x), x)
          /\ Match(PosGet(x), x) /\ Match(FailMsg(x, "sh"), x)
-(* the same over the composed ladders, as served (checked through obs) *)
-ExactAudienceServed == \A o \in obs : Match(o.res, o.q)
+(* the same over the composed ladders, as served *)
+ExactAudienceServed ==
+  \A x \in relq : /\ Match(PipeMsg(x), x) /\ Match(PipeWire(x), x)
+                   /\ x.client = "none" => Match(PipeGet(x), x)
+(* obs is exactly the set of served hits (replay configs) *)
+ObsFaithful == (WithObs /\ phase = "m") => obs = ObsNow
 (* nothing is ever filed under a private key: queries outside relq miss everywhere *)
 KeysInDom == /\ DOMAIN pos \subseteq 0..KMax /\ DOMAIN fail \subseteq 0..KMax
              /\ DOMAIN chash \subseteq 0..KMax
@@ -414,5 +427,5 @@ RefreshInherits ==
        IN /\ FoldOf[n.name] = FoldOf[o.name] /\ n.type = o.type /\ n.class = o.class
           /\ n.cd = o.cd /\ n.scope = o.scope]_vars
 
-View == <<kdom, kfun, pos, fail, cuts, chash, steps>>
+View == <<kdom, kfun, pos, fail, cuts, chash, steps, phase>>
 =============================================================================
